@@ -388,6 +388,12 @@ def r4(ctx):
     dflt = [x for x in walk_no_nested(g) if isinstance(x, ast.Assign) and src(x) == 'args.sliding = args.bin'
             and pred_is(reach_expr(g.body, x, drop=lambda t_: 'args.sliding' not in src(t_)), lambda e: e['none'], {'args.sliding is None': 'none'}, bools=['none'])]
     ctx.emit('C10-R4', bool(dflt), COUNTTABLE, g, 'sliding increment defaults to the bin size (no sliding)', key='sliding-default', nontrivial=False)
+    # ... and an increment the caller gave is the increment that is used: nothing else re-binds args.sliding / args.bin on the way to the reads
+    other = [x for x in ast.walk(g) if isinstance(x, (ast.Assign, ast.AugAssign)) and any(src(t_) in ('args.sliding', 'args.bin') for t_ in (x.targets if isinstance(x, ast.Assign) else [x.target]))
+             and not any(x is d_ for d_ in dflt)]
+    ctx.emit('C10-R4', not other, COUNTTABLE, other[0] if other else g, 'the bin size and a given sliding increment reach the window arithmetic unchanged' if not other else
+             f'`{src(other[0])[:70]}` replaces the window parameters the caller gave: the windows counted are not the windows asked for', key='window-parameters-unchanged',
+             witness={'statement': src(other[0])[:90]} if other else None, what='create_count_table: the sliding increment / bin size given by the caller is replaced')
     # split_double_BAM takes element 0 with increment == bin size (exactly one window once R1 holds)
     if ctx.ix.exists(SPLITDOUBLE):
         m = ctx.ix.module(SPLITDOUBLE)
